@@ -106,6 +106,9 @@ static std::string dump_entity(const osmium::OSMEntity& e) {
         o << "c" << c.id() << " k" << c.num_changes() << " s" << c.created_at().seconds_since_epoch() << " e"
           << c.closed_at().seconds_since_epoch() << " d" << c.num_comments() << " i" << c.uid() << " u" << c.user();
         dump_tags(o, c.tags());
+        for (const auto& cm : c.discussion()) {
+            o << " D[" << cm.uid() << "|" << cm.user() << "|" << cm.date().seconds_since_epoch() << "|" << cm.text() << "]";
+        }
         return o.str();
     }
     const auto& obj = static_cast<const osmium::OSMObject&>(e);
@@ -583,6 +586,16 @@ static Mat mat_xml(const json& els_in) {
         else if (j == m) s = "</osm>\n";
         else s = " <node id=\"" + std::to_string(j) + "\" version=\"1\" timestamp=\"2020-01-01T00:00:00Z\" uid=\"1\" user=\"u&amp;\xc3\xa4\" changeset=\"1\" lat=\"1.5\" lon=\"2.5\">\n"
                  "  <tag k=\"a\" v=\"b" + std::to_string(j) + "\"/>\n </node>\n";
+        if (j != 1 && j != m && j % 2 == 0) {
+            // every second element also carries a changeset with a discussion whose comment text (character data with
+            // multi-byte characters, an entity reference and a line break) is long enough to lie under every cut of
+            // the element that the model's piece plans can make
+            std::string text;
+            for (int k = 0; k < 40; ++k) text += "Gr\xc3\xbc\xc3\x9f" "e aus K\xc3\xb6ln " + std::to_string(j * 100 + k) + (k == 17 ? " &amp;\n" : ", ");
+            s += " <changeset id=\"" + std::to_string(j) + "\" created_at=\"2020-01-01T00:00:00Z\" closed_at=\"2020-01-01T01:00:00Z\" open=\"false\""
+                 " user=\"u\" uid=\"1\" num_changes=\"2\" comments_count=\"1\">\n  <tag k=\"comment\" v=\"c" + std::to_string(j) + "\"/>\n"
+                 "  <discussion>\n   <comment uid=\"7\" user=\"\xc3\xa4nne\" date=\"2020-01-02T00:00:00Z\">\n    <text>" + text + "</text>\n   </comment>\n  </discussion>\n </changeset>\n";
+        }
         els.emplace_back(w.get<int>(), s);
     }
     return mat_elements(els);
